@@ -18,6 +18,9 @@ use serde_json::json;
 use std::sync::atomic::{AtomicU64, Ordering};
 use vf::{guard, panic_sig, Report};
 
+#[path = "c02/ext.rs"]
+mod ext;
+
 const NS: i128 = 1_000_000_000;
 const DAY_NS: i128 = 86_400 * NS;
 /// Documented limits (Timestamp::MIN / MAX), written out independently.
@@ -305,7 +308,8 @@ fn main() {
             (
                 &[0, 1, 59, 60, 3_599, 3_600, 43_200, 86_398, 86_399],
                 &[0, 1, -1, 500_000_000, -500_000_000, 999_999_999, -999_999_999],
-                offsets(&ZFIXED8),
+                // Z-fixed(8) plus exactly +-24:00:00
+                offsets(&[0, -3600, -1, 1, 19_800, 45_900, -OFF_MAX, OFF_MAX, -86_400, 86_400]),
             )
         };
         let lo = cal::min_day() - 1;
@@ -340,7 +344,11 @@ fn main() {
         let first_day = (MIN_S as i128).div_euclid(86_400) as i64;
         let last_day = (MAX_S as i128).div_euclid(86_400) as i64;
         let leap = cal::days_from_civil(2024, 2, 29);
-        let days = [first_day, -1, 0, 1, leap, last_day];
+        let mut days = vec![first_day, -1, 0, 1, leap, last_day];
+        if r.thorough() {
+            // year -1 / year 0, the leap day of year 0, day 366 of a leap year, a century non-leap year
+            days.extend([cal::days_from_civil(-1, 12, 31), cal::days_from_civil(0, 1, 1), cal::days_from_civil(0, 2, 29), cal::days_from_civil(2024, 12, 31), cal::days_from_civil(1900, 2, 28), first_day + 1, last_day - 1]);
+        }
         let nss: [i128; 7] = [0, 1, -1, 500_000_000, -500_000_000, 999_999_999, -999_999_999];
         let offs = offsets(&ZFIXED8);
         let work: Vec<(i64, i64)> = days.iter().flat_map(|&d| (0..24).map(move |hh| (d, hh))).collect();
@@ -489,6 +497,21 @@ fn main() {
         }
     });
 
+    // ---- coverage extensions (c02/ext.rs) ----
+    let harness = |name: &str, f: &dyn Fn()| {
+        if let Err(p) = guard(f) {
+            eprintln!("ENGINE-FAILURE: harness panic in {}: {}", name, p);
+            std::process::exit(2);
+        }
+    };
+    r.section("offset_local_boundary", || harness("offset_local_boundary", &|| ext::offset_local_boundary(&r, &totals)));
+    r.section("fixed_zone_routes", || harness("fixed_zone_routes", &|| ext::fixed_zone_routes(&r)));
+    r.section("offset_values", || harness("offset_values", &|| ext::offset_values(&r)));
+    r.section("views_sweep", || harness("views_sweep", &|| ext::views_sweep(&r)));
+    r.section("ctor_dense", || harness("ctor_dense", &|| ext::ctor_dense(&r)));
+    r.section("system_time", || harness("system_time", &|| ext::system_time(&r)));
+    r.section("ordering", || harness("ordering", &|| ext::ordering(&r)));
+
     let get = |i: usize| totals[i].load(Ordering::Relaxed);
     r.outcome("instant_to_civil", get(0));
     r.outcome("civil_to_instant_ok", get(1));
@@ -528,6 +551,7 @@ fn check_views(r: &Report, section: &str, ctor: &str, case: &str, ts: Timestamp,
         chk!("subsec_millisecond", ts.subsec_millisecond() as i128, sub / 1_000_000);
         let d = ts.as_duration();
         chk!("as_duration", (d.as_secs() as i128, d.subsec_nanos() as i128), (exact / NS, sub));
+        chk!("from_duration(as_duration)", Timestamp::from_duration(d).ok().map(|t| (t.as_nanosecond(), t == ts)), Some((exact, true)));
         chk!("signum", ts.signum() as i128, exact.signum());
         chk!("is_zero", ts.is_zero(), exact == 0);
         let reference = Timestamp::from_nanosecond(exact).expect("in range");
@@ -540,7 +564,7 @@ fn check_views(r: &Report, section: &str, ctor: &str, case: &str, ts: Timestamp,
         chk!("cmp(UNIX_EPOCH)", ts.cmp(&Timestamp::UNIX_EPOCH), exact.cmp(&0));
         bad
     });
-    r.add_validated(14);
+    r.add_validated(15);
     match res {
         Err(p) => r.viol(section, &format!("{}->views/{}", ctor, panic_sig(&p)), case, p),
         Ok(bad) => {
@@ -595,10 +619,22 @@ fn in_range(x: i128) -> Option<i128> {
 }
 
 fn ctor_secs() -> Vec<i64> {
-    vec![0, 1, -1, 2, -2, 86_399, 86_400, -86_400, -86_401, MIN_S - 1, MIN_S, MIN_S + 1, MAX_S - 1, MAX_S, MAX_S + 1, i64::MIN, i64::MAX]
+    let mut v = vec![0, 1, -1, 2, -2, 86_399, 86_400, -86_400, -86_401, MIN_S - 1, MIN_S, MIN_S + 1, MAX_S - 1, MAX_S, MAX_S + 1, i64::MIN, i64::MAX];
+    // around the 32-bit boundaries (truncating casts), and a few more limits
+    for k in [31u32, 32, 33] {
+        for d in [-1i64, 0, 1] {
+            v.push((1i64 << k) + d);
+            v.push(-(1i64 << k) + d);
+        }
+    }
+    v.extend([(1i64 << 32) + (1 << 31), -(1i64 << 32) - (1 << 31), MIN_S + 2, MAX_S - 2, MIN_S - 2, MAX_S + 2, i64::MIN + 1, i64::MAX - 1]);
+    v
 }
 fn ctor_nanos() -> Vec<i32> {
-    vec![0, 1, -1, 999_999_999, -999_999_999, 1_000_000_000, -1_000_000_000, i32::MIN, i32::MAX, 500_000_000, -500_000_000]
+    vec![
+        0, 1, -1, 999_999_999, -999_999_999, 1_000_000_000, -1_000_000_000, i32::MIN, i32::MAX, 500_000_000, -500_000_000,
+        2, -2, 999_999_998, -999_999_998, 1_000_000_001, -1_000_000_001, 1_999_999_999, -1_999_999_999, 2_000_000_000, -2_000_000_000, i32::MIN + 1, i32::MAX - 1,
+    ]
 }
 
 /// `Timestamp::constant` is documented to panic exactly when `Timestamp::new`
@@ -730,7 +766,7 @@ fn ctor_views(r: &Report) {
     // then total); error exactly when out of range (documented semver
     // guarantee).
     for &s in &secs {
-        for &n in &[0i32, 1, -1, 999_999_999, -999_999_999, 500_000_000, -500_000_000] {
+        for &n in &[0i32, 1, -1, 999_999_999, -999_999_999, 500_000_000, -500_000_000, 2, -2, 999_999_998, -999_999_998] {
             let exact = s as i128 * NS + n as i128;
             if exact > i64::MAX as i128 * NS + 999_999_999 || exact < i64::MIN as i128 * NS - 999_999_999 {
                 continue;
@@ -743,6 +779,11 @@ fn ctor_views(r: &Report) {
             });
             check_ctor(r, "Timestamp::from_duration", case, in_range(exact), got, &mut tally);
         }
+    }
+    for (label, d) in [("SignedDuration::MIN", SignedDuration::MIN), ("SignedDuration::MAX", SignedDuration::MAX), ("SignedDuration::ZERO", SignedDuration::ZERO)] {
+        let exact = d.as_nanos();
+        let got = guard(|| Timestamp::from_duration(d).map_err(|e| e.to_string()));
+        check_ctor(r, "Timestamp::from_duration", format!("duration {}", label), in_range(exact), got, &mut tally);
     }
     // the whole timestamp pool through every view
     if let Ok(pool) = guard(vf::pools::timestamps) {
